@@ -42,6 +42,16 @@ var credClasses = []credClass{
 	{Name: "sql_wildcard_underscores", Header: func(e *c09env) (string, bool) { return "Bearer " + strings.Repeat("_", len(e.user)), true }},
 	{Name: "token_prefix_wildcard", Header: func(e *c09env) (string, bool) { return "Bearer " + e.user[:4] + "%", true }},
 	{Name: "token_other_case", Header: func(e *c09env) (string, bool) { return "Bearer " + swapCase(e.user), true }},
+	{Name: "admin_token_prefix", Header: func(e *c09env) (string, bool) {
+		// (differs from the admin token whenever that is longer than 32 characters; otherwise it is
+		// the admin token with a tail, unknown all the same)
+		a := e.rig.Cfg.HTTP.AuthToken
+		if len(a) > 32 {
+			return "Bearer " + a[:32], true
+		}
+		return "Bearer " + a + "-tail", true
+	}},
+	{Name: "user_token_with_suffix", Header: func(e *c09env) (string, bool) { return "Bearer " + e.user + "-suffix", true }},
 	{Name: "valid_user_token", Valid: true, Header: func(e *c09env) (string, bool) { return "Bearer " + e.user, true }},
 	{Name: "admin_token", Valid: true, Admin: true, Header: func(e *c09env) (string, bool) { return "Bearer " + e.rig.Cfg.HTTP.AuthToken, true }},
 }
@@ -100,7 +110,7 @@ func bodyFor(method, path string, e *c09env) []byte {
 
 func runC09(env core.Env, rep *core.Report) {
 	rep.Rule = "one evaluation = one request (route from Engine.Routes() x credential class) under one configuration (use_auth x profiling x metrics); non-trivial = the credential is malformed, unknown, revoked or insufficient for the route; distinct by (configuration, method, route, class)"
-	rep.Bound = "[complete product: every registered route x 14 credential classes x use_auth{on,off} x debug_profiling{on,off} x metrics{off,on}; finite, enumerated completely]"
+	rep.Bound = "[complete product: every registered route x 16 credential classes x use_auth{on,off} x debug_profiling{on,off} x metrics{off,on}; finite, enumerated completely]"
 	job := 0
 	for _, metricsOn := range []bool{false, true} {
 		if metricsOn {
